@@ -5,6 +5,7 @@ package main
 // that did not come back `unsat`, and for model extraction.
 
 import (
+	"regexp"
 	"bufio"
 	"bytes"
 	"context"
@@ -68,6 +69,77 @@ type SolverProc struct {
 	// incremental mode: one push level per path-condition entry
 	stack []string
 	axAt  [][]string // axAt[l]: assertions made while the stack was l deep
+	// Axioms that only constrain symbols of an abandoned subtree are not
+	// re-asserted when that subtree is popped ("buried"); they come back the
+	// moment any later input mentions one of those symbols again (resurrect).
+	// Dropping a valid axiom can only weaken the solver, never make it unsound.
+	maxSym  int            // largest fresh-symbol number seen in any input so far
+	symAt   []int          // symAt[i]: maxSym when stack level i+1 was pushed
+	grave   map[string][]int // young symbol -> buried axioms mentioning it
+	graveAx []string
+	buried  []bool
+	nBuried, nRaised int
+}
+
+var freshSymRe = regexp.MustCompile(`[A-Za-z_][A-Za-z0-9_.$]*![0-9]+`)
+
+func symNumber(sym string) int {
+	i := strings.LastIndexByte(sym, '!')
+	n := 0
+	for _, c := range sym[i+1:] {
+		n = n*10 + int(c-'0')
+		if n > 1<<40 {
+			break
+		}
+	}
+	return n
+}
+
+// noteSyms updates maxSym with the symbols of text.
+func (sp *SolverProc) noteSyms(text string) {
+	for _, m := range freshSymRe.FindAllString(text, -1) {
+		if n := symNumber(m); n > sp.maxSym {
+			sp.maxSym = n
+		}
+	}
+}
+
+// raise writes back (into b) every buried axiom that mentions a symbol of
+// text, transitively, and records it at the current depth.
+func (sp *SolverProc) raise(text string, b *strings.Builder) {
+	if len(sp.grave) == 0 {
+		return
+	}
+	work := []string{text}
+	for len(work) > 0 {
+		t := work[len(work)-1]
+		work = work[:len(work)-1]
+		for _, m := range freshSymRe.FindAllString(t, -1) {
+			idxs, ok := sp.grave[m]
+			if !ok {
+				continue
+			}
+			delete(sp.grave, m)
+			for _, i := range idxs {
+				if !sp.buried[i] {
+					continue
+				}
+				sp.buried[i] = false
+				sp.nRaised++
+				c := sp.graveAx[i]
+				b.WriteString(c)
+				b.WriteByte('\n')
+				d := len(sp.stack)
+				for len(sp.axAt) <= d {
+					sp.axAt = append(sp.axAt, nil)
+				}
+				if d > 0 {
+					sp.axAt[d] = append(sp.axAt[d], c)
+				}
+				work = append(work, c)
+			}
+		}
+	}
 }
 
 func StartSolver(timeoutMs int) (*SolverProc, error) {
@@ -129,6 +201,10 @@ func (sp *SolverProc) Send(cmds []string) {
 		sp.axAt = append(sp.axAt, nil)
 	}
 	for _, c := range cmds {
+		sp.noteSyms(c)
+		if strings.HasPrefix(c, "(assert") {
+			sp.raise(c, &b)
+		}
 		b.WriteString(c)
 		b.WriteByte('\n')
 		if d > 0 && strings.HasPrefix(c, "(assert") {
@@ -152,13 +228,49 @@ func (sp *SolverProc) popTo(l int, b *strings.Builder) {
 		moved = append(moved, sp.axAt[i]...)
 		sp.axAt[i] = nil
 	}
+	// symbols numbered above thr were created after level l+1 was pushed: they
+	// belong to the subtree that is being abandoned
+	thr := sp.maxSym
+	if l < len(sp.symAt) {
+		thr = sp.symAt[l]
+	}
 	sp.stack = sp.stack[:l]
+	if l < len(sp.symAt) {
+		sp.symAt = sp.symAt[:l]
+	}
+	var kept []string
 	for _, c := range moved {
+		var young []string
+		if os.Getenv("GOVC_NOBURY") == "" {
+			for _, m := range freshSymRe.FindAllString(c, -1) {
+				if symNumber(m) > thr {
+					young = append(young, m)
+				}
+			}
+		}
+		if len(young) > 0 {
+			if sp.grave == nil {
+				sp.grave = map[string][]int{}
+			}
+			i := len(sp.graveAx)
+			sp.graveAx = append(sp.graveAx, c)
+			sp.buried = append(sp.buried, true)
+			sp.nBuried++
+			seen := map[string]bool{}
+			for _, m := range young {
+				if !seen[m] {
+					seen[m] = true
+					sp.grave[m] = append(sp.grave[m], i)
+				}
+			}
+			continue
+		}
+		kept = append(kept, c)
 		b.WriteString(c)
 		b.WriteByte('\n')
 	}
 	if l > 0 {
-		sp.axAt[l] = append(sp.axAt[l], moved...)
+		sp.axAt[l] = append(sp.axAt[l], kept...)
 	}
 }
 
@@ -175,10 +287,14 @@ func (sp *SolverProc) CheckInc(pc []string, extra []string) string {
 	}
 	sp.popTo(n, &b)
 	for _, e := range pc[n:] {
-		b.WriteString("(push 1)\n(assert ")
+		sp.symAt = append(sp.symAt, sp.maxSym)
+		b.WriteString("(push 1)\n")
+		sp.stack = append(sp.stack, e)
+		sp.noteSyms(e)
+		sp.raise(e, &b)
+		b.WriteString("(assert ")
 		b.WriteString(e)
 		b.WriteString(")\n")
-		sp.stack = append(sp.stack, e)
 	}
 	for len(sp.axAt) <= len(sp.stack) {
 		sp.axAt = append(sp.axAt, nil)
@@ -201,6 +317,10 @@ func (sp *SolverProc) Check(asserts []string) string {
 	atomic.AddInt64(&queryCounter, 1)
 	marker := fmt.Sprintf("#done%d", sp.nq)
 	var b strings.Builder
+	for _, a := range asserts {
+		sp.noteSyms(a)
+		sp.raise(a, &b)
+	}
 	b.WriteString("(push 1)\n")
 	for _, a := range asserts {
 		b.WriteString("(assert ")
